@@ -35,7 +35,8 @@ ProbeVerdict(p) ==
     ELSE IF p.what = "header-local" THEN (IF p.dk \in {"evalerr", "unassigned"} THEN "ok" ELSE "value-from-wrong-frame")
     ELSE IF p.what = "header-caller" THEN
         (IF p.dk \in {"evalerr", "unassigned"} \/ (p.dk = "val" /\ p.dv = p.pv) THEN "ok" ELSE "value-from-wrong-frame")
-    ELSE IF p.what \in {"unknown", "subscript"} THEN (IF p.dk = "evalerr" THEN "ok" ELSE "error-not-reported")
+    \* ("no value yet" / "array not initialized" are evaluation errors too)
+    ELSE IF p.what \in {"unknown", "subscript"} THEN (IF p.dk \in {"evalerr", "unassigned"} THEN "ok" ELSE "error-not-reported")
     ELSE "ok"                                   \* after the end anything but a crash is acceptable
 
 \* all failing probes (the 12 first are reported); no recursion: a session may ask thousands of questions
